@@ -1017,7 +1017,7 @@ def one_tree(M, tseed, with_edits=True):
 # ------------------------------------------------------------------------------------------ plan / work / finish
 def plan(tier, seed):
     shards = 32 if tier == "quick" else 64
-    per = 160 if tier == "quick" else 3200
+    per = 120 if tier == "quick" else 3200
     return [{"kind": "trees", "base": (seed * 4096 + s) * 1_000_000, "count": per} for s in range(shards)]
 
 
